@@ -229,13 +229,29 @@ func subRequestVars(subs []sx.S) (string, map[string]interface{}) {
 		if i > 0 {
 			head.WriteString(", ")
 		}
-		fmt.Fprintf(&head, "$p%d: Int, $s%d: String, $u%d: Int", i, i, i)
-		vars[fmt.Sprintf("p%d", i)] = sx.Int(sl[2])
+		if sx.Int(sl[1])%2 == 0 {
+			// the pattern is the default of its variable and the caller gives no value for it
+			fmt.Fprintf(&head, "$p%d: Int = %d, $s%d: String, $u%d: Int", i, sx.Int(sl[2]), i, i)
+		} else {
+			fmt.Fprintf(&head, "$p%d: Int, $s%d: String, $u%d: Int", i, i, i)
+			vars[fmt.Sprintf("p%d", i)] = sx.Int(sl[2])
+		}
 		vars[fmt.Sprintf("s%d", i)] = sched
 		vars[fmt.Sprintf("u%d", i)] = sx.Int(sl[1])
 		fmt.Fprintf(&body, " a%d: w(p: $p%d, s: $s%d, u: $u%d) {", i, i, i, i)
-		for _, f := range sx.List(sl[3]) {
+		for j, f := range sx.List(sl[3]) {
 			fmt.Fprintf(&body, " f%d", sx.Int(f))
+			if j == 0 && sx.Int(sl[1])%3 == 0 {
+				// a variable of the operation inside the subscriber's selection set: it holds when the
+				// selection is applied to an event what it held when the request was made
+				if sx.Int(sl[1])%2 == 0 {
+					fmt.Fprintf(&head, ", $t%d: Boolean = true", i)
+				} else {
+					fmt.Fprintf(&head, ", $t%d: Boolean", i)
+					vars[fmt.Sprintf("t%d", i)] = true
+				}
+				fmt.Fprintf(&body, " @include(if: $t%d)", i)
+			}
 		}
 		body.WriteString(" }")
 	}
